@@ -589,8 +589,112 @@ def gen_grammar(draw, flags):
 
 
 @st.composite
+def gen_ebnf_grammar(draw):
+    """Grammars lowered from small EBNF expressions (sequence, alternative, optional, repetition): the shapes hand-written
+    grammars have - nullable non-terminals followed by DIFFERENT continuations after a common prefix
+    (S: H O ';' | H O '=' n), optional and repeated parts next to each other, separated lists."""
+    t_count = draw(st.integers(2, 4))
+    terms = ["a", "b", "c", "d"][:t_count]
+    names = ["A", "B", "C", "D", "E", "F"]
+    prods = []
+    fresh = [0]
+
+    def new_nt():
+        fresh[0] += 1
+        return names[fresh[0] - 1] if fresh[0] <= len(names) else None
+
+    def lower(depth):
+        """-> list of symbols (a sequence) standing for one drawn EBNF expression"""
+        k = draw(st.integers(0, 9)) if depth > 0 else 0
+        if k <= 3:
+            return [draw(st.sampled_from(terms))]
+        nt = new_nt()
+        if nt is None:
+            return [draw(st.sampled_from(terms))]
+        if k <= 5:  # optional
+            prods.append((nt, tuple(lower(depth - 1) + (lower(depth - 1) if draw(st.booleans()) else []))))
+            prods.append((nt, ()))
+        elif k <= 7:  # repetition, left or right recursive, possibly with a separator
+            body = lower(depth - 1)
+            if draw(st.booleans()):
+                prods.append((nt, (nt,) + tuple(body)))
+            else:
+                prods.append((nt, tuple(body) + (nt,)))
+            prods.append((nt, ()) if draw(st.integers(0, 2)) else (nt, tuple(body)))
+        else:  # alternative
+            for _ in range(draw(st.integers(2, 3))):
+                prods.append((nt, tuple(lower(depth - 1) + (lower(depth - 1) if draw(st.booleans()) else []))))
+        return [nt]
+
+    nalt = draw(st.integers(1, 3))
+    prefix = []
+    for _ in range(draw(st.integers(0, 2))):
+        prefix += lower(2)
+    for i in range(nalt):
+        tail = []
+        for _ in range(draw(st.integers(0 if prefix else 1, 2))):
+            tail += lower(2)
+        # the alternatives of S share the prefix (possibly ending in a nullable symbol) and continue differently
+        prods.append(("S", tuple((prefix if draw(st.integers(0, 3)) else []) + tail)))
+    seen = []
+    for pr in prods:
+        if pr not in seen:
+            seen.append(pr)
+    seen.sort(key=lambda pr: pr[0] != "S")
+    return terms, seen
+
+
+@st.composite
+def gen_stmt_grammar(draw):
+    """'Statement' grammars: the alternatives of S share a prefix of simple / optional / list non-terminals and continue with
+    different terminals (S: H O ';' | H O '=' n) - mostly conflict free, so the parser is judged in both directions, and the
+    look-ahead sets of the prefix's non-terminals must be the union over all continuations."""
+    t_count = draw(st.integers(2, 4))
+    terms = ["a", "b", "c", "d"][:t_count]
+    names = ["A", "B", "C", "D", "E"]
+    prods = []
+
+    def atom():
+        k = draw(st.integers(0, 9))
+        if k <= 2 or not names:
+            return draw(st.sampled_from(terms))
+        nt = names.pop(0)
+        t1, t2 = draw(st.sampled_from(terms)), draw(st.sampled_from(terms))
+        if k <= 4:  # simple
+            prods.append((nt, (t1,)))
+            if draw(st.booleans()):
+                prods.append((nt, (t1, t2)))
+        elif k <= 7:  # optional
+            prods.append((nt, (t1,) if draw(st.booleans()) else (t1, t2)))
+            prods.append((nt, ()))
+        else:  # list
+            prods.append((nt, (nt, t1)) if draw(st.booleans()) else (nt, (t1, nt)))
+            prods.append((nt, ()) if draw(st.booleans()) else (nt, (t1,)))
+        return nt
+
+    prefix = [atom() for _ in range(draw(st.integers(1, 3)))]
+    nalt = draw(st.integers(2, 3))
+    starts = draw(st.permutations(terms + [None]))[:nalt]
+    for t in starts:
+        tail = ([t] if t is not None else []) + [atom() for _ in range(draw(st.integers(0, 2 if t is not None else 0)))]
+        prods.append(("S", tuple(prefix + tail)))
+    seen = []
+    for pr in prods:
+        if pr not in seen:
+            seen.append(pr)
+    seen.sort(key=lambda pr: pr[0] != "S")
+    return terms, seen
+
+
+@st.composite
 def gen_case(draw, flags):
-    terms, prods = draw(gen_grammar(flags))
+    family = draw(st.integers(0, 3)) if not any(flags) else 0
+    if family == 1:
+        terms, prods = draw(gen_ebnf_grammar())
+    elif family == 2:
+        terms, prods = draw(gen_stmt_grammar())
+    else:
+        terms, prods = draw(gen_grammar(flags))
     lang = sorted(languages(prods, 8)["S"])
     longer = [w for w in lang if len(w) > 4]
     strings = []
@@ -605,7 +709,7 @@ def gen_case(draw, flags):
         "terminals": terms,
         "productions": [[lhs, list(rhs)] for lhs, rhs in prods],
         "start": "S",
-        "maxlen": 4 if len(terms) < 3 else 3,
+        "maxlen": 4 if len(terms) < 3 else 3 if len(terms) < 4 else 3,
         "strings": strings,
     }
 
